@@ -133,6 +133,13 @@ var _ time.Time // lemmas below name package time
 
 // ---- client-side cookie pool (Fetcher.data.Cookie) ----
 
+// The key exchange itself (TLS/QUIC dial, record stream) is not under contract: callers see an arbitrary result.
+//@ func (*Fetcher).FetchData
+//@   trusted
+//@   requires f != nil
+//@   modifies f.data
+//@   allocates
+
 //@ func (*Fetcher).StoreCookie
 //@   requires f != nil
 //@   modifies f.data.Cookie, f.data.Cookie[:]
